@@ -114,10 +114,50 @@ def is_kind_rules(facts, rep, w, D):
                 if m[0] == "call" and sname(m[1]) == "metadata" and pr.is_arg(m[2][0], 0) and c[0] == "agg" and c[2] == want and \
                         pr.g_exists(gs, lambda t: pr.is_arg(t, 0), True):
                     okcmp = True
+        # ... and every *other* answer is that comparison: in particular a failed metadata lookup is an error, not "false"
+        others = []
+        for ct, _, bb in pr.inter.ret_cases(b):
+            if pr.inter.case_polarity(ct) != "ok":
+                continue
+            v = norm(ct[3][0][1])
+            if v == ("int", 0) and pr.g_exists(pr.guards(cb, bb), lambda t: pr.is_arg(t, 0), False):
+                continue
+            if v[0] == "call" and v[1] == "PartialEq::eq":
+                continue
+            others.append(fmt(v)[:50])
+        n += 1
+        rep.ob("R05.2", b.id, "%s: no answer other than !exists -> false and the type comparison" % name, not others, "" if not others else
+               "%s can also answer %s: e.g. a metadata failure reported as `false` makes an existing directory look like neither file "
+               "nor directory (and lets the overlay's merged listing skip a layer silently)" % (name, others[0]), b.span)
         n += 2
         rep.ob("R05.2", b.id, "%s: false when the path does not exist" % name, okfalse, "", b.span)
         rep.ob("R05.2", b.id, "%s: exists ∧ metadata().file_type == %s" % (name, want), okcmp, "" if okcmp else
                "%s does not compare the path's own metadata type with %s under exists()" % (name, want), b.span)
+    # exists() of the path type is the backend's answer for this path, for every path (no "the root always exists" shortcut:
+    # the root of an altroot / of a PhysicalFS can be removed underneath)
+    b = pr.methods.get("exists")
+    if b is not None:
+        consts = []
+        delegated = False
+        for ct, _, bb in pr.inter.ret_cases(b):
+            if pr.inter.case_polarity(ct) == "err":
+                continue
+            v = ct
+            if v[0] == "agg" and v[2] == "Ok" and v[3]:
+                v = v[3][0][1]
+            v = norm(v)
+            for alt in (v[1] if v[0] == "phi" else (v,)):
+                if alt[0] == "int":
+                    consts.append(alt[1])
+                x = peel(alt)
+                if x[0] == "call" and sname(x[1]) == "exists":
+                    delegated = True
+            if ct[0] == "call" and sname(ct[1]) in ("map_err", "exists"):
+                delegated = True
+        n += 1
+        rep.ob("R05.2", b.id, "exists: the backend's answer, never a constant", delegated and not consts, "" if not consts else
+               "exists() answers a constant (%s) for some paths without asking the filesystem: exists and metadata/read_dir can disagree "
+               "(e.g. for a root that was removed underneath)" % consts, b.span)
     return n
 
 
@@ -269,6 +309,7 @@ def run(facts, rep, tier, ctx):
     c09.relative_join_rules(facts, rep, ws, "R05.5j")
     c09.resolver_rules(facts, rep, ws, "R05.5r")
     c07.delegation(facts, rep, ws, "R05.5a", D)
+    c07.gate_rules(facts, _P5(rep, "R05.5a"), ws, D)
     # R05.6
     from ..report import Report
     scratch = Report("x")
@@ -311,6 +352,7 @@ def run(facts, rep, tier, ctx):
         k += c09.relative_join_rules(facts, A, wa, "R05.5j")
         k += c09.resolver_rules(facts, A, wa, "R05.5r")
         k += c07.delegation(facts, A, wa, "R05.5a", D)
+        c07.gate_rules(facts, _P5(A, "R05.5a"), wa, D)
         k += physrules.table_o_shape(facts, A, "R05.6p", wa)
         scratch = Report("xa")
         c01.table_m(facts, scratch, "M", "Mk", self_ty=wa.memory, trait="AsyncFileSystem",
